@@ -629,12 +629,44 @@ type injectRun struct {
 // injectHung is set once a run of the tool had to be killed.
 var injectHung int32
 
+var (
+	injectRunNo    int32
+	injectTmpOnce  sync.Once
+	injectTmpOther string
+)
+
+// injectOtherTmp: a scratch directory under /dev/shm when that is a different device than the default temporary
+// directory (removed by injectOtherTmpCleanup); "" otherwise.
+func injectOtherTmp() string {
+	injectTmpOnce.Do(func() {
+		var a, b syscall.Stat_t
+		if syscall.Stat("/dev/shm", &a) != nil || syscall.Stat(os.TempDir(), &b) != nil || a.Dev == b.Dev {
+			return
+		}
+		if d, err := os.MkdirTemp("/dev/shm", "vh-inject-tmp-"); err == nil {
+			injectTmpOther = d
+		}
+	})
+	return injectTmpOther
+}
+
+func injectOtherTmpCleanup() {
+	if injectTmpOther != "" {
+		os.RemoveAll(injectTmpOther)
+	}
+}
+
 func injectCLI(cli string, args ...string) injectRun {
 	// the tool works on a handful of small files: a run that has not ended after 30 s does not end (e.g. it opened a
 	// named pipe for reading) - that stops every remaining file from being processed and is reported like a crash
 	ctx, cancel := context.WithTimeout(context.Background(), 30*time.Second)
 	defer cancel()
 	cmd := exec.CommandContext(ctx, cli, args...)
+	// every other run has its temporary directory on another file system than the files it works on (where the
+	// machine has one): a tool that writes next to / renames over its targets must cope with either
+	if d := injectOtherTmp(); d != "" && atomic.AddInt32(&injectRunNo, 1)%2 == 0 {
+		cmd.Env = append(os.Environ(), "TMPDIR="+d)
+	}
 	var eb bytes.Buffer
 	cmd.Stderr = &eb
 	cmd.Stdout = &eb
@@ -793,6 +825,7 @@ type injectScn struct {
 }
 
 func injectFilesCmd(args []string) error {
+	defer injectOtherTmpCleanup()
 	fs := flag.NewFlagSet("inject-files", flag.ContinueOnError)
 	cli := fs.String("cli", "", "path of the built injector CLI")
 	work := fs.String("work", "", "scratch directory")
@@ -1063,6 +1096,10 @@ func injectSpecialState(p string) string {
 		t, _ := os.Readlink(p)
 		st += " -> " + t
 	}
+	if fi.Mode().IsRegular() {
+		b, _ := os.ReadFile(p)
+		st += " " + injectSha(b)
+	}
 	return st
 }
 
@@ -1074,6 +1111,7 @@ func injectEntPath(dir string, e *injectEnt) string {
 }
 
 func injectDirsCmd(args []string) error {
+	defer injectOtherTmpCleanup()
 	fs := flag.NewFlagSet("inject-dirs", flag.ContinueOnError)
 	cli := fs.String("cli", "", "path of the built injector CLI")
 	work := fs.String("work", "", "scratch directory")
@@ -1150,6 +1188,14 @@ func injectDirsCmd(args []string) error {
 				}
 				for _, n := range []string{"a0_dangling", "a1_dangling.go", "a2_dirlink", "a3_pipe"} {
 					specials[n] = injectSpecialState(filepath.Join(dir, n))
+				}
+			}
+			// one directory in five is crowded: 17..24 more files that are not Go sources, sorting before the entries
+			if v.ID%5 == 3 {
+				for k, n := 0, 17+int(v.ID/5)%8; k < n; k++ {
+					name := fmt.Sprintf("a4_fill%02d.txt", k)
+					os.WriteFile(filepath.Join(dir, name), []byte(fmt.Sprintf("filler %d of %d\n", k, v.ID)), 0o644)
+					specials[name] = injectSpecialState(filepath.Join(dir, name))
 				}
 			}
 			var runs []injectRun
